@@ -55,13 +55,15 @@ def translate(t):
     for o in t['ops']:
         c = o['call']
         if c[0] == 'box':
+            # every finite bound: the relation on the plain variable is requested, asserted as a unit clause and propagated
+            k = 0
             for x in range(t['nx']):
                 lb, ub = c[1]['lb'][str(x)], c[1]['ub'][str(x)]
-                if lb[1] != 0:
-                    lines += [js({'e': 'propagate'}), js({'e': 'lra_set_lb', 'x': x, 'v': lb})]
-                if ub[1] != 0:
-                    lines += [js({'e': 'propagate'}), js({'e': 'lra_set_ub', 'x': x, 'v': ub})]
-            lines.append(js({'e': 'propagate'}))
+                for (rel, q) in (('geq', lb), ('leq', ub)):
+                    if q[1] != 0:
+                        lines += [js({'e': 'lra_rel', 'rel': rel, 'l': {'v': [[x, 1, 1]], 'k': [0, 1]}, 'r': {'v': [], 'k': q}}),
+                                  js({'e': 'new_clause', 'lits': [c[2][k]]}), js({'e': 'propagate'})]
+                        k += 1
         elif c[0] == 'lra_def':
             lines.append(js({'e': 'lra_def', 'l': lin_of(c[1])}))
         elif c[0] == 'lra_rel':
@@ -77,12 +79,18 @@ def conforms(t, ex):
         if c[0] == 'skip':
             continue
         if c[0] == 'box':
-            # the calls that set the bounds, the last one is a propagate
-            while k < len(ex) and ex[k].get('e') in ('propagate', 'lra_set_lb', 'lra_set_ub'):
-                if ex[k].get('ret') == 0:
-                    return 'call %d: %s refused' % (i, ex[k].get('e'))
-                k += 1
-            out = ex[k - 1] if k > 0 else None
+            out = None
+            for lit_ in c[2]:
+                if k + 2 >= len(ex):
+                    return 'call %d (box): not answered' % i
+                if ex[k].get('e') != 'lra_rel' or ex[k].get('ret') != lit_:
+                    return 'call %d (box): the bound literal is %s, the model has %s' % (i, ex[k].get('ret'), lit_)
+                if ex[k + 1].get('ret') != 1 or ex[k + 2].get('ret') != 1:
+                    return 'call %d (box): a bound was refused' % i
+                out = ex[k + 2]
+                k += 3
+            if out is None:
+                continue      # an unbounded box: nothing was called
         else:
             if k >= len(ex):
                 return 'call %d (%s) was not answered' % (i, c[0])
